@@ -36,6 +36,7 @@ static int tracking;
 static int plan_mode;            /* 0 none, 1 at k1, 2 from k1, 3 pair k1,k2 */
 static long plan_k1, plan_k2;
 static size_t biggest;
+static void site(void *ra);
 
 /* direct (non-pool) allocation calls per calling function (dladdr on the return address; linked with -rdynamic) */
 static struct { const char *name; int n; } sites[64]; static int nsites;
@@ -91,6 +92,7 @@ void *__wrap_calloc(size_t n, size_t s)
 {
   void *p;
   if (!tracking) return __real_calloc(n, s);
+  site(__builtin_return_address(0));
   if (should_fail()) return NULL;
   if (n && s > ((size_t)1 << 31) / n) return NULL;
   p = __real_calloc(n ? n : 1, s ? s : 1);
@@ -102,7 +104,8 @@ void *__wrap_realloc(void *q, size_t s)
 {
   void *p;
   if (!tracking) return __real_realloc(q, s);
-  if (should_fail()) return NULL;
+  site(__builtin_return_address(0));
+  if (should_fail()) return NULL;                    /* a failing realloc leaves the old block allocated */
   if (q && !forget(q)) { badfree++; return NULL; }
   p = __real_realloc(q, s ? s : 1);
   if (p) note(p, s);
@@ -125,6 +128,40 @@ void __wrap_free(void *p)
   if (i >= 0 && blks[i].app && !in_app) { stolen++; return; }   /* the LIBRARY frees a block the application owns: counted, not executed */
   if (!forget(p)) { badfree++; return; }     /* double / invalid free: counted, not executed */
   __real_free(p);
+}
+
+int __real_posix_memalign(void **, size_t, size_t);
+void *__real_aligned_alloc(size_t, size_t);
+char *__real_strdup(const char *);
+int __wrap_posix_memalign(void **out, size_t al, size_t sz)
+{
+  int r;
+  if (!tracking) return __real_posix_memalign(out, al, sz);
+  site(__builtin_return_address(0));
+  if (should_fail()) return 12 /* ENOMEM */;
+  r = __real_posix_memalign(out, al, sz ? sz : 1);
+  if (!r) note(*out, sz);
+  return r;
+}
+void *__wrap_aligned_alloc(size_t al, size_t sz)
+{
+  void *p;
+  if (!tracking) return __real_aligned_alloc(al, sz);
+  site(__builtin_return_address(0));
+  if (should_fail()) return NULL;
+  p = __real_aligned_alloc(al, sz ? sz : al);
+  if (p) note(p, sz);
+  return p;
+}
+char *__wrap_strdup(const char *x)
+{
+  char *p;
+  if (!tracking) return __real_strdup(x);
+  site(__builtin_return_address(0));
+  if (should_fail()) return NULL;
+  p = __real_strdup(x);
+  if (p) note(p, strlen(x) + 1);
+  return p;
 }
 
 /* ownership bookkeeping of the application side */
@@ -842,6 +879,38 @@ bail:
   return rc;
 }
 
+/* the ICC profile of one instance is set, replaced by a larger and a smaller one, used, cleared */
+static int s_icc_replace(void)
+{
+  tjhandle h = tj3Init(TJINIT_COMPRESS); unsigned char *out = NULL; size_t n = 0; int rc = 0;
+  if (!h) NOHANDLE();
+  if (tj3SetICCProfile(h, icc, 300) < 0) FAIL(h);
+  if (tj3SetICCProfile(h, bigicc, sizeof(bigicc)) < 0) FAIL(h);
+  if (tj3SetICCProfile(h, icc, sizeof(icc)) < 0) FAIL(h);
+  if (tj3Set(h, TJPARAM_SUBSAMP, TJSAMP_420) < 0 || tj3Set(h, TJPARAM_QUALITY, 80) < 0) FAIL(h);
+  if (tj3Compress8(h, rgb8, IW, 0, IH, TJPF_RGB, &out, &n) < 0) FAIL(h);
+  if (tj3SetICCProfile(h, NULL, 0) < 0) FAIL(h);
+  if (tj3SetICCProfile(h, bigicc, 5000) < 0) FAIL(h);
+bail:
+  tj3Free(out);
+  tj3Destroy(h);
+  return rc;
+}
+static int s_icc_replace_xform(void)
+{
+  tjhandle h = tj3Init(TJINIT_TRANSFORM); unsigned char *d[1] = { NULL }; size_t n[1] = { 0 }; tjtransform t; int rc = 0;
+  if (!h) NOHANDLE();
+  memset(&t, 0, sizeof(t));
+  if (tj3SetICCProfile(h, bigicc, 6000) < 0) FAIL(h);
+  if (tj3Transform(h, J420.buf, J420.size, 1, d, n, &t) < 0) FAIL(h);
+  if (tj3SetICCProfile(h, bigicc, sizeof(bigicc)) < 0) FAIL(h);
+  if (tj3SetICCProfile(h, icc, 100) < 0) FAIL(h);
+bail:
+  tj3Free(d[0]);
+  tj3Destroy(h);
+  return rc;
+}
+
 /* (c) libjpeg API: several images through ONE compression object with jpeg_mem_dest.  arg = pairs of characters:
    L library-allocated buffer (NULL), S / M caller-supplied 100 / 4096 bytes (outgrown), B caller-supplied 128 KB (enough);
    f the application frees the result before the next image, k it keeps all results until the end. */
@@ -960,6 +1029,7 @@ static const scn_t scns[] = {
   F("xf_filt_2f0_icc_lib", s_xf_filt, "2 0 0 1 0"), F("xf_filt_2f1_icc_lib", s_xf_filt, "2 1 0 1 0"), F("xf_filt_2f1late_small_lib", s_xf_filt, "2 1 1 0 0"),
   F("xf_filt_2f1_icc_noreal", s_xf_filt, "2 1 0 1 1"), F("xf_filt_2f1_icc_own", s_xf_filt, "2 1 0 1 2"), F("xf_filt_2f0_small_own", s_xf_filt, "2 0 0 0 2"),
   F("xf_filt_2none_icc_lib", s_xf_filt, "2 -1 0 1 0"), F("xf_filt_1none_icc_own", s_xf_filt, "1 -1 0 1 2"),
+  S(icc_replace), S(icc_replace_xform),
   /* THROW paths */
   F("err_comp_nosubsamp", s_err, "comp_nosubsamp"), F("err_comp_16_lossy", s_err, "comp_16_lossy"), F("err_comp_after_ok_then_bad", s_err, "comp_after_ok_then_bad"),
   F("err_encyuv_cmyk", s_err, "encyuv_cmyk"), F("err_dec_maxpixels", s_err, "dec_maxpixels"), F("err_dec_crop_other_image", s_err, "dec_crop_other_image"),
@@ -1069,6 +1139,75 @@ static void limit_load(const char *kind, long w, long h, int lim)
   tracking = 0;
   printf("limit load %s %ld %ld %d rc=%d biggest=%zu | %s\n", kind, w, h, lim, img ? 0 : -1, biggest, img ? "" : tj3GetErrorStr(hc));
   tracking = 1; tj3Free(img); tj3Destroy(hc); tracking = 0;
+}
+
+/* limit loadv <fmt> <prec> <w> <h> <maxpixels>: tj3LoadImage8/12/16 of a COMPLETE w x h image file;
+   fmt: bmp12 bmp40 bmp64 bmp108 bmp124 (BITMAPCOREHEADER / INFOHEADER / OS/2 2.x / V4 / V5), p2 p3 p5 p6 */
+static void put16(FILE *f, unsigned v) { fputc(v & 255, f); fputc((v >> 8) & 255, f); }
+static void put32(FILE *f, unsigned long v) { put16(f, v & 65535); put16(f, (v >> 16) & 65535); }
+static void limit_loadv(const char *fmt, int prec, long w, long h, int lim)
+{
+  char fn[1100]; FILE *f; long x, y; int rc, ww = 0, hh = 0, pf = TJPF_UNKNOWN; void *img = NULL; tjhandle hc;
+  snprintf(fn, sizeof(fn), "%s/limv.%s", scratch, fmt[0] == 'b' ? "bmp" : "pnm");
+  f = fopen(fn, "wb"); must(f != NULL, fn);
+  if (fmt[0] == 'b') {
+    unsigned hs = (unsigned)atoi(fmt + 3); long rowb = ((w * 3 + 3) / 4) * 4;
+    fputc('B', f); fputc('M', f); put32(f, 14 + hs + rowb * h); put32(f, 0); put32(f, 14 + hs);
+    put32(f, hs);
+    if (hs == 12) { put16(f, (unsigned)w); put16(f, (unsigned)h); put16(f, 1); put16(f, 24); }
+    else {
+      unsigned k;
+      put32(f, (unsigned long)w); put32(f, (unsigned long)h); put16(f, 1); put16(f, 24); put32(f, 0); put32(f, rowb * h);
+      put32(f, 0); put32(f, 0); put32(f, 0); put32(f, 0);
+      for (k = 40; k < hs; k++) fputc(0, f);
+    }
+    for (y = 0; y < h; y++) for (x = 0; x < rowb; x++) fputc((int)((x * 3 + y) & 255), f);
+  } else {
+    int t = fmt[1] - '0', comps = (t == 3 || t == 6) ? 3 : 1, maxval = prec == 8 ? 255 : prec == 12 ? 4095 : 65535;
+    fprintf(f, "P%d\n%ld %ld\n%d\n", t, w, h, maxval);
+    for (y = 0; y < h; y++) for (x = 0; x < w * comps; x++) {
+      int v = (int)((x * 7 + y * 3) % (maxval + 1));
+      if (t <= 3) fprintf(f, "%d ", v);
+      else if (maxval > 255) { fputc(v >> 8, f); fputc(v & 255, f); }
+      else fputc(v, f);
+    }
+  }
+  fclose(f);
+  hc = tj3Init(TJINIT_COMPRESS); must(hc != NULL, "limit init");
+  must(tj3Set(hc, TJPARAM_MAXPIXELS, lim) == 0, "set maxpixels");
+  if (prec != 8) must(tj3Set(hc, TJPARAM_PRECISION, prec) == 0, "set precision");
+  tracking = 1; nblk = 0; alloc_idx = 0; plan_mode = 0; in_app = 0;
+  if (prec == 8) img = tj3LoadImage8(hc, fn, &ww, 1, &hh, &pf);
+  else if (prec == 12) img = tj3LoadImage12(hc, fn, &ww, 1, &hh, &pf);
+  else img = tj3LoadImage16(hc, fn, &ww, 1, &hh, &pf);
+  rc = img ? 0 : -1;
+  printf("limit loadv %s %d %ld %ld %d rc=%d got=%dx%d | %s\n", fmt, prec, w, h, lim, rc, ww, hh, img ? "" : tj3GetErrorStr(hc));
+  tj3Free(img); tj3Destroy(hc); tracking = 0;
+  { int i; for (i = 0; i < nblk; i++) __real_free(blks[i].p); nblk = 0; }
+}
+
+/* limit rd <gif|tga> <w> <h> <maxpixels>: the cjpeg readers that are not part of libturbojpeg, through start_input */
+int c14_gif_start(const char *fn, unsigned long lim, char *msg, unsigned *w, unsigned *h);
+int c14_tga_start(const char *fn, unsigned long lim, char *msg, unsigned *w, unsigned *h);
+static void limit_rd(const char *fmt, long w, long h, long lim)
+{
+  char fn[1100], msg[256] = ""; FILE *f; long i; int rc; unsigned gw = 0, gh = 0;
+  snprintf(fn, sizeof(fn), "%s/limr.%s", scratch, fmt);
+  f = fopen(fn, "wb"); must(f != NULL, fn);
+  if (!strcmp(fmt, "gif")) {
+    fwrite("GIF87a", 1, 6, f); put16(f, (unsigned)w); put16(f, (unsigned)h); fputc(0x80, f); fputc(0, f); fputc(0, f);
+    for (i = 0; i < 6; i++) fputc((int)(i * 40), f);                      /* 2-entry global colour map */
+    fputc(0x2C, f); put16(f, 0); put16(f, 0); put16(f, (unsigned)w); put16(f, (unsigned)h); fputc(0, f);
+    fputc(2, f); fputc(2, f); fputc(0x4C, f); fputc(0x01, f); fputc(0, f); fputc(0x3B, f);
+  } else {
+    fputc(0, f); fputc(0, f); fputc(2, f); for (i = 0; i < 5; i++) fputc(0, f); put16(f, 0); put16(f, 0);
+    put16(f, (unsigned)w); put16(f, (unsigned)h); fputc(24, f); fputc(0x20, f);
+    for (i = 0; i < 64; i++) fputc((int)i, f);
+  }
+  fclose(f);
+  rc = !strcmp(fmt, "gif") ? c14_gif_start(fn, (unsigned long)lim, msg, &gw, &gh) : c14_tga_start(fn, (unsigned long)lim, msg, &gw, &gh);
+  for (i = 0; msg[i]; i++) if (msg[i] == '\n' || msg[i] == '|') msg[i] = ' ';
+  printf("limit rd %s %ld %ld %ld rc=%d got=%ux%u | %s\n", fmt, w, h, lim, rc, gw, gh, msg);
 }
 
 /* limit scan <index-of-progressive-jpeg> <scanlimit>: JPROGN[i] has a known number of scans */
@@ -1347,7 +1486,8 @@ int main(int argc, char **argv)
         else if (!strncmp(n, "comp", 4) || !strcmp(n, "encyuv")) t = 'c';
         else if (!strncmp(n, "dec", 3)) t = 'd';
         else if (!strncmp(n, "xform", 5)) t = 't';
-        else if (!strncmp(n, "xf_filt", 7) || !strncmp(n, "err_xform", 9)) t = 't';
+        else if (!strncmp(n, "xf_filt", 7) || !strncmp(n, "err_xform", 9) || !strcmp(n, "icc_replace_xform")) t = 't';
+        else if (!strcmp(n, "icc_replace")) t = 'c';
         else if (!strncmp(n, "tj_seq", 6) || !strncmp(n, "err_comp", 8) || !strncmp(n, "err_encyuv", 10)) t = 'c';
         else if (!strncmp(n, "err_load", 8)) { t = 'c'; inner = 'c'; }
         else if (!strncmp(n, "err_save", 8)) { t = 'd'; inner = 'd'; }
@@ -1368,6 +1508,8 @@ int main(int argc, char **argv)
       sscanf(line, "%*s %63s", a);
       if (!strcmp(a, "pix")) { sscanf(line, "%*s %*s %ld %ld %ld %63s", &x, &y, &z, b); limit_pix((int)x, (int)y, (int)z, b); }
       else if (!strcmp(a, "load")) { sscanf(line, "%*s %*s %63s %ld %ld %ld", b, &x, &y, &z); limit_load(b, x, y, (int)z); }
+      else if (!strcmp(a, "loadv")) { long pr = 8; sscanf(line, "%*s %*s %63s %ld %ld %ld %ld", b, &pr, &x, &y, &z); limit_loadv(b, (int)pr, x, y, (int)z); }
+      else if (!strcmp(a, "rd")) { sscanf(line, "%*s %*s %63s %ld %ld %ld", b, &x, &y, &z); limit_rd(b, x, y, z); }
       else if (!strcmp(a, "scan")) { sscanf(line, "%*s %*s %ld %ld %63s", &x, &y, b); limit_scan((int)x, (int)y, b); }
       else if (!strcmp(a, "mem")) { sscanf(line, "%*s %*s %ld %ld %ld %63s", &x, &y, &z, b); limit_mem((int)x, (int)y, (int)z, b); }
       else if (!strcmp(a, "vmem")) { long ss = 420, full = 0; long long M = 0; sscanf(line, "%*s %*s %63s %ld %ld %ld %lld %ld", b, &x, &y, &ss, &M, &full); limit_vmem(b, (int)x, (int)y, (int)ss, M, (int)full); }
